@@ -24,7 +24,7 @@ CHECKS = {
          "Every (amount, recipient, token, stored denom, caller) case is judged on the recorded Mint request to the real fiattokenfactory, the bank ledger and both events; "
          "a BFS interleaving receives with every other transaction type checks total minted == sum over distinct accepted burn messages in every state.", "5 C04", ""),
  "C05": (True, "model_checking", "explicit-state BFS with ledger conservation invariant on the real bank/fiattokenfactory",
-         "All histories up to the depth over deposits, sends (incl. burn-message imitations), replacements and pausing: supply destroyed == sum of burn amounts over distinct module-sent nonces, "
+         "All histories up to the depth over deposits (incl. deposits during which the transfer or the burn is refused, fails after taking effect, or panics), sends (incl. burn-message imitations), replacements and pausing: supply destroyed == sum of burn amounts over distinct module-sent nonces, "
          "only the depositor is debited, nothing stays in the module account, sender rule for every emitted message.", "5 C05", ""),
  "C06": (True, "model_checking", "exhaustive product enumeration over producing transaction types, judged by an independent decoder",
          "Every combination of destination, recipient, caller, body, amount, mint recipient and submitter at three history points is executed; the emitted bytes are decoded with the reference codec "
@@ -36,7 +36,7 @@ CHECKS = {
          "Every combination of configuration (limit, flags, max body, denom spelling, burn-side state) and request (amount boundaries, token, recipient, caller, depositor, destination) "
          "is executed; success iff the documented conjunction, with 'can pay'/'burn succeeds' answered by a dry run on the real ledger.", "5 C08", ""),
  "C09": (True, "model_checking", "exhaustive product enumeration of originals x new fields x configurations",
-         "Thirteen kinds of original (own, foreign, unattested, rotated, deposits, imitations, replacements of replacements) x both replacement types x new-field shapes x pause flags x attester rotation (judged by the history of successful enable/disable transactions) x four submitters incl. prefix-sharing short accounts: "
+         "Thirteen kinds of original (own, foreign, unattested, rotated, deposits, imitations, replacements of replacements) x both replacement types x new-field shapes x pause flags x attester rotation (judged by the history of successful enable/disable transactions) x five submitters incl. prefix-sharing short accounts and a 32-byte account beginning with the sender's bytes (known finding F10: two KNOWN-FINDING lines): "
          "success only under the stated conditions; the emitted replacement equals the original outside the allowed fields; raw four-store diff empty.", "5 C09", ""),
  "C10": (True, "model_checking", "explicit-state BFS over role assignments + exhaustive probes of every privileged transaction by every submitter",
          "All assignments of the four roles and the pending slot over the account universe are reached by real role transactions; in each, all 18 privileged "
@@ -68,7 +68,7 @@ CHECKS = {
          "discarded-transaction non-interference: for every ordered pair (s, q) of a ~135-request menu in 6 states, q after executing s on a branch that is then discarded must equal q alone and queries must be unchanged; "
          "the same bodies run free on 24 goroutines under the race detector (one shared cctp keeper, per-instance dependencies).", "5 C18",
          "Map-iteration/time/rand nondeterminism is covered only by repeated runs (randomised differential) and an informational AST scan; races wholly inside dependencies are counted, not reported."),
- "C19": (True, "model_checking", "per-registry BFS to closure + combined BFS, every query compared with reference maps after every transition",
+ "C19": (True, "model_checking", "per-registry BFS to closure + combined BFS, every query compared with reference maps (seeded from the genesis document) at the root and after every transition",
          "All contents of each registry over small colliding key universes are reached by real transactions; after every transition every single-item query for every key, every list query for every page size in key and offset mode with totals, and all scalar queries are compared with reference maps; a scalar or role a successful transaction has just set must be what its query returns; registries of 101 and 130 entries (beyond the default page) are paged with every page size.", "5 C19", ""),
  "C20": (True, "model_checking", "exhaustive product of per-field nasty domains per message type, decoded from wire bytes, under recover()",
          "Every combination of field shapes (absent, empty, malformed, oversized, non-ASCII, boundary integers) for all 25 transaction types in nine states (three of them only a genesis file can create), all 19 queries with nil/extreme requests, "
